@@ -3,7 +3,7 @@ import { Reporter, TIER, valueKind, sha } from "./common.mjs";
 import { familyPrograms, forEachCompiledParser, bFamily } from "./cases.mjs";
 import { render, skeleton } from "./spec.mjs";
 import { build, toSrc, universeFor } from "./universe.mjs";
-import { noUndeclared, member, IN, DC, Prog, isPlain } from "./ref.mjs";
+import { noUndeclared, member, dcSeen, IN, DC, Prog, isPlain } from "./ref.mjs";
 
 // canonical text of a value (distinguishes kinds; optionally ignores object key order)
 export function canon(v, sortKeys = false, seen = new Set()) {
@@ -184,7 +184,11 @@ export function checkParser({ rep, stats, parser, parserName, spec, refProg, vx,
     let pf = projectionFault(d, input);
     // a change of kind is judged only where the reference affirms that the input is a member of the
     // type (an object type that happens to accept a Map/Date is C01's DONTCARE territory)
-    if (pf && pf.includes("KIND") && !(spec && member(refProg, spec, input) === IN)) pf = null;
+    if (pf && pf.includes("KIND")) {
+      dcSeen.count = 0;
+      const undisputed = spec && member(refProg, spec, input) === IN && dcSeen.count === 0;
+      if (!undisputed) pf = null;
+    }
     if (pf) fail(`parsed data is not a projection of the input [${oname}]: ${pf}`, "projection");
     if (spec && again === true) {
       const nu = noUndeclared(refProg, spec, d);
